@@ -12,7 +12,7 @@ VERIF = os.path.dirname(os.path.dirname(os.path.abspath(__file__)))
 ALL = ["C%02d" % i for i in range(1, 20)]
 # --scratch: work on a scratch worktree of /repo and a scratch copy of /verif (outside both), so that /repo and
 # /verif stay usable meanwhile; the result is still written to the change's meta.json in /verif
-SCRATCH = "/tmp/vs"
+SCRATCH = os.environ.get("SEED_SCRATCH", "/tmp/vs")
 
 
 def setup_scratch():
